@@ -650,6 +650,15 @@ func handleInputStream(s *Session, handler Handler) (err error) {
 
 	iqOk := isIQ(start.Name)
 	_, _, id, typ := getIDTyp(start.Attr)
+	// The handler is given a pointer to start and may change it, so whatever a
+	// default reply depends on is read before the handler runs.
+	var fromAttr string
+	for _, a := range start.Attr {
+		if a.Name.Local == "from" && a.Name.Space == "" {
+			fromAttr = a.Value
+			break
+		}
+	}
 
 	if typ == string(stanza.ResultIQ) || typ == "error" {
 		s.sentStanzaMutex.Lock()
@@ -702,13 +711,6 @@ func handleInputStream(s *Session, handler Handler) (err error) {
 	iqNeedsResp := typ == string(stanza.GetIQ) || typ == string(stanza.SetIQ)
 	// If the user did not write a response to an IQ, send a default one.
 	if iqOk && iqNeedsResp && !rw.wroteResp {
-		var fromAttr string
-		for _, a := range start.Attr {
-			if a.Name.Local == "from" && a.Name.Space == "" {
-				fromAttr = a.Value
-				break
-			}
-		}
 		var to jid.JID
 		if fromAttr != "" {
 			to, err = jid.Parse(fromAttr)
